@@ -95,6 +95,14 @@ def _work(args):
     if not res.get("ok"):
         out["status"] = "compile_error"
         out["note"] = str(res.get("error"))[:300]
+        # a schema with no valid instance at all is rightly rejected at compile time
+        try:
+            rr0, rs0, _ = jsgen.reference(schema)
+            g0 = gram.CFG([(l, [("T", 1) if k == "T" else (k, v) for k, v in r]) for l, r in rr0], rs0)
+            if rs0 not in g0.productive():
+                out["status"] = "unsat_ok"
+        except ValueError:
+            pass
         return out
     atoms = {}
 
@@ -203,6 +211,9 @@ def run_for(prop):
     cases = gen_cases(tr, sd)
     inconclusive = []
     try:
+        for c in cases:
+            c["schema_ref"] = c["schema"]
+            c["schema"] = {k: v for k, v in c["schema"].items() if k != "x-verif-finite"} if isinstance(c["schema"], dict) else c["schema"]
         jobs = [dict(op="compile", kind="json", schema=c["schema"], want=["cgrammar", "lexemes", "automata"], max_states=400) for c in cases]
         results = e2.run_jobs(jobs)
     except RuntimeError as ex:
@@ -212,7 +223,7 @@ def run_for(prop):
     stats = dict(cases=len(cases), decided=0, queries=0, solver_s=0.0, twins=0, twins_sat=0, skipped=0, compile_errors=0, with_addkey=0)
     cands = []
     samples = []
-    work = [(i, c["schema"], results[i], N) for i, c in enumerate(cases)]
+    work = [(i, c["schema_ref"], results[i], N) for i, c in enumerate(cases)]
     with ProcessPoolExecutor(max_workers=14) as ex:
         for o in ex.map(_work, work, chunksize=2):
             i = o["idx"]
@@ -227,6 +238,9 @@ def run_for(prop):
                 stats["compile_errors"] += 1
                 # every generated schema is satisfiable and inside the documented subset: a compile error is a completeness failure
                 cands.append((i, dict(kind="C07", compile_error=o["note"])))
+                continue
+            if o["status"] == "unsat_ok":
+                stats["skipped"] += 1
                 continue
             if o["status"] in ("skip", "skip_big"):
                 stats["skipped"] += 1
